@@ -172,10 +172,12 @@ type computerFunc = func(*ComputedStyle, pr.KnownProp, pr.CssProperty) pr.CssPro
 
 // backgroundImage computes lenghts in gradient background-image.
 func backgroundImage(computer *ComputedStyle, _ pr.KnownProp, _value pr.CssProperty) pr.CssProperty {
-	value := _value.(pr.Images)
+	// the declared value is shared by every element matched by the rule : work on a copy
+	value := append(pr.Images(nil), _value.(pr.Images)...)
 	for i, image := range value {
 		switch gradient := image.(type) {
 		case pr.LinearGradient:
+			gradient.ColorStops = append(pr.ColorsStops(nil), gradient.ColorStops...)
 			for j, cl := range gradient.ColorStops {
 				if !cl.Position.IsNone() {
 					cl.Position = length_(computer, pr.DimOrS{Dimension: cl.Position}, -1, false).Dimension
@@ -184,6 +186,7 @@ func backgroundImage(computer *ComputedStyle, _ pr.KnownProp, _value pr.CssPrope
 			}
 			image = gradient
 		case pr.RadialGradient:
+			gradient.ColorStops = append(pr.ColorsStops(nil), gradient.ColorStops...)
 			for j, cl := range gradient.ColorStops {
 				if !cl.Position.IsNone() {
 					cl.Position = length_(computer, pr.DimOrS{Dimension: cl.Position}, -1, false).Dimension
@@ -461,7 +464,7 @@ func borderImageWidth(_ *ComputedStyle, _ pr.KnownProp, _value pr.CssProperty) p
 
 // Compute the “border-image-outset“ property.
 func borderImageOutset(computer *ComputedStyle, _ pr.KnownProp, _value pr.CssProperty) pr.CssProperty {
-	values := _value.(pr.Values)
+	values := append(pr.Values(nil), _value.(pr.Values)...) // do not write into the declared value
 	for i, value := range values {
 		if value.Unit == pr.Scalar {
 			values[i] = value
@@ -822,7 +825,7 @@ func gridTemplate(computer *ComputedStyle, _ pr.KnownProp, _value pr.CssProperty
 
 // Compute the “grid-auto-*“ properties.
 func gridAuto(computer *ComputedStyle, _ pr.KnownProp, _value pr.CssProperty) pr.CssProperty {
-	values := _value.(pr.GridAuto)
+	values := append(pr.GridAuto(nil), _value.(pr.GridAuto)...) // do not write into the declared value
 	for i, value := range values {
 		values[i] = computeGridDims(computer, value)
 	}
